@@ -1,6 +1,6 @@
 CONSTANTS
   Kind = "set"
-  Rows = {0, 100}
+  Rows = {99, 100}
   Cols = {0, 3}
   Ops = {"Row","RoaringSet","RoaringClear","SetBit","ClearBit","SetRow","ClearRow","BulkSet","BulkClear","Snapshot","BgSnapshot","Reopen","Rows","Blocks"}
   Scope = "small"
